@@ -243,9 +243,13 @@ func TestC07(t *testing.T) {
 				vdesc += fmt.Sprintf(" proposerTS=%d", bc.Timestamp())
 			}
 			expect := h < 2 || (bc.Timestamp() == c07RefMedian(lastTS) && bc.Timestamp() > parent.Timestamp())
-			bc2, ierr := hbImport(w.B, enc)
-			desc := fmt.Sprintf("%s chain h=%d P=%d %s tx=%d", chainDesc, h, parent.Timestamp(), vdesc, ntx)
-			rec.Case(desc, h >= 2 && boundary, "chain-block", fmt.Sprintf("chain-h%d", h))
+			imp, via := hbImport, "Import"
+			if rapid.IntRange(0, 2).Draw(rt, "viaImportBlock") == 0 {
+				imp, via = hbImportBlock, "ImportBlock"
+			}
+			bc2, ierr := imp(w.B, enc)
+			desc := fmt.Sprintf("%s chain h=%d P=%d %s tx=%d via=%s", chainDesc, h, parent.Timestamp(), vdesc, ntx, via)
+			rec.Case(desc, h >= 2 && boundary, "chain-block", fmt.Sprintf("chain-h%d", h), "via-"+via)
 			if (ierr == nil) != expect {
 				if ierr != nil {
 					rt.Fatalf("C07 violated: valid block rejected by import (%v): %s; block %x", ierr, desc, enc)
@@ -387,10 +391,14 @@ func TestC07(t *testing.T) {
 				devs++
 			}
 			expect := devs == 0
-			bc2, ierr := hbImport(w.B, in)
+			imp, via := hbImport, "Import"
+			if rapid.IntRange(0, 2).Draw(rt, "candViaImportBlock") == 0 {
+				imp, via = hbImportBlock, "ImportBlock"
+			}
+			bc2, ierr := imp(w.B, in)
 			accepted := ierr == nil
 
-			labels := []string{"candidate", "median-" + class, fmt.Sprintf("signers-%s", map[bool]string{true: "even", false: "odd"}[len(inTS)%2 == 0])}
+			labels := []string{"candidate", "cand-via-" + via, "median-" + class, fmt.Sprintf("signers-%s", map[bool]string{true: "even", false: "odd"}[len(inTS)%2 == 0])}
 			for _, mu := range muts {
 				labels = append(labels, "mut-"+strings.SplitN(mu, "{", 2)[0])
 			}
@@ -417,7 +425,7 @@ func TestC07(t *testing.T) {
 				labels = append(labels, "expect-reject", fmt.Sprintf("deviations-%d", devs))
 			}
 			nontrivial := devs == 1 || (devs == 0 && (T == P+1 || (len(inTS)%2 == 0 && eo && len(muts) == 0)))
-			desc := fmt.Sprintf("%s cand P=%d sig=%v ts=%v(%s) round=%d muts=%v T=%d", chainDesc, P, signers, ts, class, round, muts, T)
+			desc := fmt.Sprintf("%s cand P=%d sig=%v ts=%v(%s) round=%d muts=%v T=%d via=%s", chainDesc, P, signers, ts, class, round, muts, T, via)
 			rec.Case(desc, nontrivial, labels...)
 
 			if accepted != expect {
